@@ -17,36 +17,37 @@ import (
 )
 
 type Engine struct {
-	ctx     *Ctx
-	fset    *token.FileSet
-	pkgs    map[string]*packages.Package
-	allPkgs []*packages.Package
-	cs      *Contracts
-	decls   map[string]*ast.FuncDecl
-	declPkg map[string]*packages.Package
-	constG  map[*types.Var]int
+	ctx      *Ctx
+	fset     *token.FileSet
+	pkgs     map[string]*packages.Package
+	allPkgs  []*packages.Package
+	cs       *Contracts
+	decls    map[string]*ast.FuncDecl
+	declPkg  map[string]*packages.Package
+	constG   map[*types.Var]int
 	assigned map[*types.Var]bool
+	repo     string
 }
 
 // PropConfig is one entry of /verif/props.json.
 type PropConfig struct {
-	ID       string   `json:"id"`
-	Packages []string `json:"packages"`
-	Level    string   `json:"level"`
-	Trusted  []string `json:"trusted_base"`
-	Assume   []string `json:"assumptions"`
+	ID       string       `json:"id"`
+	Packages []string     `json:"packages"`
+	Level    string       `json:"level"`
+	Trusted  []string     `json:"trusted_base"`
+	Assume   []string     `json:"assumptions"`
 	Bounded  []BoundedCfg `json:"bounded"`
-	Note     string   `json:"note"`
+	Note     string       `json:"note"`
 }
 
 type BoundedCfg struct {
-	Name    string `json:"name"`
-	Pkg     string `json:"pkg"`     // package dir relative to repo
-	File    string `json:"file"`    // test file under /verif/bounded
-	Run     string `json:"run"`     // test name regexp
-	Bound   string `json:"bound"`   // human-readable bound
-	Thorough bool  `json:"thorough_only"`
-	Env     map[string]string `json:"env"`
+	Name     string            `json:"name"`
+	Pkg      string            `json:"pkg"`   // package dir relative to repo
+	File     string            `json:"file"`  // test file under /verif/bounded
+	Run      string            `json:"run"`   // test name regexp
+	Bound    string            `json:"bound"` // human-readable bound
+	Thorough bool              `json:"thorough_only"`
+	Env      map[string]string `json:"env"`
 }
 
 func main() {
@@ -179,6 +180,7 @@ func load(repo string, patterns []string) (*Engine, error) {
 	e := &Engine{fset: fset, pkgs: map[string]*packages.Package{}, cs: newContracts(), decls: map[string]*ast.FuncDecl{},
 		declPkg: map[string]*packages.Package{}, constG: map[*types.Var]int{}, assigned: map[*types.Var]bool{}}
 	e.ctx = newCtx(fset)
+	e.repo = repo
 	var errs []string
 	packages.Visit(pkgs, nil, func(p *packages.Package) {
 		e.allPkgs = append(e.allPkgs, p)
